@@ -102,5 +102,18 @@ func Registry() []*Spec {
 		Quick: map[string]int{"NT": 1, "SPLIT": 0}, Thorough: map[string]int{"NT": 2, "SPLIT": 1},
 		Covers: []string{"some", "none"}, UnitDepth: 5,
 		Note: "oj.Match and oj.MatchLoad (1-byte reads, one symbolic split point) on 4 concrete document skeletons (depth <= 3) with symbolic digit leaves and 1..2 targets from 9 shapes (child, index, wildcard, descent, union, nested) with symbolic indexes in [0,4]: the callback sequence equals the outermost locations of the reference selector on the parsed document, in document order, with equal values"})
+	// ---- C18: generic / simple conversions
+	add(Spec{Property: "C18", Name: "VerifC18_Convert", Pkg: "asm",
+		Quick: map[string]int{}, Thorough: map[string]int{},
+		Covers: []string{"done"}, UnitDepth: 4,
+		Note: "Generify+Simplify, GenAlter+Alter, Dup, Decompose, Generify+Dup+Simplify, Alter on 7 shapes (depth <= 3, empty containers) with leaves nil / symbolic bool, int64, float64, string <= 2 bytes: exact (kind-preserving) tree equality, input unchanged, no container shared between input and output (engine heap identity), original unchanged after scribbling over the copy"})
+	add(Spec{Property: "C18", Name: "VerifC18_MutateOriginal", Pkg: "asm",
+		Quick: map[string]int{}, Thorough: map[string]int{},
+		Covers: []string{"done"}, UnitDepth: 4,
+		Note: "the copy is unchanged after every member of every container of the original is overwritten"})
+	add(Spec{Property: "C18", Name: "VerifC18_WriteGen", Pkg: "asm",
+		Quick: map[string]int{}, Thorough: map[string]int{},
+		Covers: []string{"done"}, UnitDepth: 4,
+		Note: "oj.Writer output for a gen tree equals the output for its simple equivalent (Sort, tight and Indent 2)"})
 	return r
 }
